@@ -363,7 +363,9 @@ def dist(
     if isinstance(p, PointTensor) and isinstance(q, PolygonTensor):
         return dist(q, p)
     if isinstance(p, PolygonTensor) and isinstance(q, PointTensor):
-        result = np.min([dist(e, q) for e in p.edges], axis=0)
+        # the edges are indexed along the third last axis (the first axes of a collection are collection axes)
+        edges = p.edges
+        result = np.min([dist(edges[..., i, :, :], q) for i in range(edges.shape[-3])], axis=0)
         if p.dim > 2:
             r = p._plane.project(q)
             return np.where(p.contains(r), dist(r, q), result)
